@@ -25,7 +25,7 @@ Print Assumptions T01_hop_by_hop_removed.
 (* ... Connection / Upgrade come back only when an upgrade is requested, exactly as Connection: Upgrade + Upgrade: t. *)
 Theorem T01_upgrade_readded_only_on_request : forall tag r r',
   handle_request tag r = Passed r' ->
-  exists r1, modify_request tag (fix_request_scheme proxy_allow_http r) = Passed r1 /\
+  exists r1, modify_request tag (prep r) = Passed r1 /\
   let up := upgrade_type (q_hdr r) in
   (is_empty up = false -> raw_get k_connection (q_hdr r') = Some [k_upgrade] /\ raw_get k_upgrade (q_hdr r') = Some [up]) /\
   (is_empty up = true -> raw_get k_connection (q_hdr r') = None /\ raw_get k_upgrade (q_hdr r') = None) /\
